@@ -1,6 +1,7 @@
 import GoomVerif.Drv.Util
 import GoomVerif.Model.MethodH
 import GoomVerif.Model.MethodG
+import GoomVerif.Model.InnerFn
 /-! Driver for C06.
 
     `c06.hist <step>.. | <entry>.. | <sym>..`
@@ -148,8 +149,22 @@ def handleGuard (rest0 : List String) : String :=
     | _, _ => "bad-op"
   | _ => "bad-op"
 
+/-- `c06.inner n<len> | c<rel> | i | p ..` → `inner=<offset>` | `inner=none` -/
+def handleInner (toks : List String) : String :=
+  let parse (t : String) : Option InnerFn.Ins :=
+    if t = "i" then some .int3 else if t = "p" then some .prologue
+    else match t.toList with
+      | 'n' :: r => (String.ofList r).toNat?.bind (fun n => if 1 ≤ n ∧ n ≤ 8 then some (.fill n) else none)
+      | 'c' :: r => (String.ofList r).toInt?.map .call
+      | _ => none
+  match toks.mapM parse with
+  | some (.prologue :: _) => "bad-op"
+  | some code => (match InnerFn.inner code with | some o => s!"inner={o}" | none => "inner=none")
+  | none => "bad-op"
+
 def handle (toks : List String) : Option String :=
   match toks with
+  | "c06.inner" :: rest => some (handleInner rest)
   | "c06.guard" :: rest0 => some (handleGuard rest0)
   | "c06.hist" :: rest0 =>
     -- `@` abbreviates the common import-path prefix of the corpus packages on the wire.  The model only compares and
